@@ -6,7 +6,7 @@ honesty of the inverse, source/target exchange, exact landmark return for the in
 import numpy as np
 
 from vf.core import Workload
-from vf import taps, gen, tx
+from vf import taps, gen, tx, align
 from vf.digest import digest
 
 ID = "C04"
@@ -145,7 +145,7 @@ def setup(ctx):
     ctx.see("tapped_pseudoinverse_definers", sorted(c.__name__ for c in owners))
 
 
-KINDS2 = tx.HOMOG + tx.EXTRA_HOMOG + ["ThinPlateSplines", "PiecewiseAffine", "PythonPWA", "tcoords", "PWA_trimesh_target"]
+KINDS2 = tx.HOMOG + tx.EXTRA_HOMOG + ["ThinPlateSplines", "PiecewiseAffine", "PythonPWA", "tcoords", "PWA_trimesh_target", "PWA_mirrored_target"]
 KINDS3 = tx.HOMOG + tx.EXTRA_HOMOG + ["tcoords3"]
 
 
@@ -164,6 +164,18 @@ def w_inverse(ctx, rng, i):
         inv = mt.image_coords_to_tcoords(shp)          # goes through pseudoinverse internally
         t.pseudoinverse()
         opt = "shape"
+    elif kind == "PWA_mirrored_target":
+        # the target is a reflected copy of a fold-free deformation: every triangle changes orientation, the map stays one-to-one
+        s, tg = tx.pwa_pair(rng)
+        refl = np.eye(2)
+        refl[rng.integers(0, 2), rng.integers(0, 2)] *= -1.0
+        if abs(np.linalg.det(refl)) < 0.5 or np.linalg.det(refl) > 0:
+            refl = np.diag([1.0, -1.0])
+        from menpo.transform.piecewiseaffine.base import PythonPWA, CachedPWA
+        cls = [PythonPWA, CachedPWA][rng.integers(0, 2)]
+        t = cls(s, ms.PointCloud(tg.points @ refl.T + rng.uniform(-2, 2, 2)))
+        inv = t.pseudoinverse()
+        opt = cls.__name__
     elif kind == "PWA_trimesh_target":
         s, tg = tx.pwa_pair(rng)
         # the target handed over as a TriMesh that carries its own (different) triangulation
@@ -199,8 +211,18 @@ def w_inverse(ctx, rng, i):
                     ctx.fail("double_inverse_does_not_restore_source_and_target", cls=type(t).__name__)
         except Exception as e:
             ctx.fail("double_inverse_unusable", cls=type(t).__name__, mech=type(e).__name__)
-    # retargeted alignments invert like fresh ones (state after set_target)
+    # the inverse of a homogeneous alignment is a working alignment of its own: retargeted, it is the fit from *its* source
     from menpo.transform.base import Alignment
+    if isinstance(inv, Alignment) and isinstance(inv, mt.Homogeneous) and rng.random() < 0.5:
+        newt = ms.PointCloud(inv.target.points + rng.normal(scale=0.7, size=inv.target.points.shape) + rng.uniform(-2, 2, d))
+        isrc = inv.source.points.copy()
+        inv.set_target(newt)
+        ctx.tap("inverse_alignment_retargeted", "calls"); ctx.tap("inverse_alignment_retargeted", "checked")
+        align.judge_family(ctx, inv, isrc, newt.points.copy(),
+                           {"allow_mirror": getattr(inv, "allow_mirror", False), "rotation": getattr(inv, "rotation", True)}, "inverse_retargeted")
+        if tx.maxdiff(inv.aligned_source().points, inv.apply(isrc)) > 1e-9 * tx.BOX:
+            ctx.fail("retargeted_inverse_reports_an_aligned_source_that_is_not_its_map_of_its_source", cls=type(inv).__name__)
+    # retargeted alignments invert like fresh ones (state after set_target)
     if isinstance(t, Alignment) and rng.random() < 0.4 and not kind.startswith("PWA_trimesh"):
         newt = t.target.copy()
         newt.points = newt.points + rng.normal(scale=0.05, size=newt.points.shape)
